@@ -78,3 +78,15 @@ check("C03",
       "additivity (C12). Known finding: mixed-parity increments in the copula coupling (see known_findings.json). Outside: 3-d coupling, CouplingSDE "
       "Euler part (C16).",
       TECH, "DESIGN.md section 3 C03")
+
+check("C05",
+      "Bounded model checking of the real multilevel engine (adaptive price() and the fixed-level variant), path managers, statistics and results code "
+      "against a scripted coupling process with symbolic payoffs and solver-chosen sample-size / convergence answers: on every explored run history "
+      "the price equals the sum over levels of the mean of df*notional*(fine-coarse) over exactly the samples handed out at that level, reported N_l, "
+      "ml, vl, mean_level_l, var_level_l, cl equal their definitions on those samples, the coarse payoff is 0 at level 0; uninitialised array cells are "
+      "fresh symbols, so any placeholder reaching a result breaks an identity.",
+      "Trusted: z3; the scripted process/product/criteria (public duck-typed interfaces); scipy.stats.moment replaced by its definition. Bounds: "
+      "initial_level <= 1 (quick) / 2 (thorough), N0 <= 2/3, level_max <= initial+1/+2, answers in [0,2]/[0,3], <= 4 passes. Outside: control variates "
+      "and payoff dimension > 1 in the multilevel engine, worker pools, regression of convergence rates. Known finding: fixed-level variant with "
+      "maximum_level < initial_level raises IndexError.",
+      TECH, "DESIGN.md section 3 C05")
